@@ -166,3 +166,132 @@ Proof.
   apply choose_blocks_spec in Ch. clear - Ch. induction Ch as [|f l fs ls' Hf _ IH]; constructor; [|exact IH].
   apply choose_block_spec. exact Hf.
 Qed.
+
+(* --- the combination used is the FIRST usable one in the enumerated order --------------- *)
+
+(* a combination is usable when every block is a registered key with at least one variable *)
+Definition usable (reg : registry) (c : list (list string)) : bool :=
+  match all_lookup reg c with
+  | Some (l :: ls) => forallb (fun l : list varinfo => match l with [] => false | _ => true end) (l :: ls)
+  | _ => false
+  end.
+
+Lemma choose_block_none ad l : choose_block ad l = None <-> l = [].
+Proof.
+  unfold choose_block. split.
+  - destruct (find (fits ad) l) as [v|]; [discriminate|].
+    destruct (rev l) as [|v r] eqn:R; [|discriminate]. intros _.
+    rewrite <- (rev_involutive l), R. reflexivity.
+  - intros ->. reflexivity.
+Qed.
+
+Lemma choose_blocks_some_iff ad : forall ls,
+  (exists e, choose_blocks ad ls = Some e) <->
+  forallb (fun l : list varinfo => match l with [] => false | _ => true end) ls = true.
+Proof.
+  induction ls as [|l ls IH]; simpl.
+  - split; [reflexivity | intros _; eexists; reflexivity].
+  - split.
+    + intros [e H]. destruct (choose_block ad l) as [f|] eqn:C; [|discriminate].
+      destruct (choose_blocks ad ls) as [fs|] eqn:Cs; [|discriminate].
+      apply andb_true_iff. split.
+      * destruct l; [|reflexivity]. assert (X : @nil varinfo = []) by reflexivity.
+        apply (proj2 (choose_block_none ad [])) in X. congruence.
+      * apply IH. eexists; reflexivity.
+    + intros H. apply andb_true_iff in H. destruct H as [Hl Hls].
+      destruct (choose_block ad l) as [f|] eqn:C.
+      * apply IH in Hls. destruct Hls as [fs ->]. eexists; reflexivity.
+      * apply choose_block_none in C. subst. discriminate.
+Qed.
+
+Lemma choose_blocks_length ad : forall ls e, choose_blocks ad ls = Some e -> List.length e = List.length ls.
+Proof.
+  induction ls as [|l ls IH]; intros e H; simpl in H.
+  - inversion H; reflexivity.
+  - destruct (choose_block ad l); [|discriminate]. destruct (choose_blocks ad ls) as [fs|]; [|discriminate].
+    inversion H; subst. simpl. f_equal. apply IH. reflexivity.
+Qed.
+
+Lemma usable_iff reg ad c :
+  usable reg c = true <->
+  exists ls f fs, all_lookup reg c = Some ls /\ choose_blocks ad ls = Some (f :: fs).
+Proof.
+  unfold usable. split.
+  - destruct (all_lookup reg c) as [[|l ls]|] eqn:L; try discriminate. intros H.
+    apply (choose_blocks_some_iff ad) in H. destruct H as [e He].
+    pose proof (choose_blocks_length ad _ _ He) as Hl. destruct e as [|f fs]; [discriminate|].
+    exists (l :: ls), f, fs. split; [reflexivity | exact He].
+  - intros (ls & f & fs & L & C). rewrite L.
+    pose proof (choose_blocks_length ad _ _ C) as Hl. destruct ls as [|l ls]; [discriminate|].
+    apply (choose_blocks_some_iff ad). eexists; exact C.
+Qed.
+
+Lemma scan_combinations_first reg ad : forall cs e,
+  scan_combinations reg ad cs = Some e ->
+  exists pre c post ls,
+    cs = pre ++ c :: post /\ (forall c', In c' pre -> usable reg c' = false) /\
+    usable reg c = true /\ all_lookup reg c = Some ls /\ choose_blocks ad ls = Some e.
+Proof.
+  induction cs as [|c cs IH]; intros e H; simpl in H; [discriminate|].
+  assert (Hskip : usable reg c = false -> scan_combinations reg ad cs = Some e ->
+          exists pre c0 post ls, c :: cs = pre ++ c0 :: post /\ (forall c', In c' pre -> usable reg c' = false) /\
+            usable reg c0 = true /\ all_lookup reg c0 = Some ls /\ choose_blocks ad ls = Some e).
+  { intros Hu Hs. destruct (IH e Hs) as (pre & c0 & post & ls & -> & Hpre & R).
+    exists (c :: pre), c0, post, ls. split; [reflexivity|]. split; [|exact R].
+    intros c' [<-|Hin]; [exact Hu | apply Hpre, Hin]. }
+  destruct (all_lookup reg c) as [ls|] eqn:L.
+  - destruct (choose_blocks ad ls) as [[|f fs]|] eqn:S.
+    + apply Hskip; [|exact H]. destruct (usable reg c) eqn:U; [|reflexivity].
+      apply (usable_iff reg ad) in U. destruct U as (ls' & f & fs & L' & C'). congruence.
+    + inversion H; subst. exists [], c, cs, ls. split; [reflexivity|]. split; [intros c' []|].
+      split; [apply (usable_iff reg ad); exists ls, f, fs; split; assumption|]. split; assumption.
+    + apply Hskip; [|exact H]. destruct (usable reg c) eqn:U; [|reflexivity].
+      apply (usable_iff reg ad) in U. destruct U as (ls' & f & fs & L' & C'). congruence.
+  - apply Hskip; [|exact H]. unfold usable. rewrite L. reflexivity.
+Qed.
+
+Lemma scan_combinations_none reg ad : forall cs,
+  scan_combinations reg ad cs = None <-> forall c, In c cs -> usable reg c = false.
+Proof.
+  induction cs as [|c cs IH]; simpl.
+  - split; [intros _ c [] | reflexivity].
+  - split.
+    + intros H c' [E|Hin].
+      * subst c'. destruct (usable reg c) eqn:U; [|reflexivity]. apply (usable_iff reg ad) in U.
+        destruct U as (ls & f & fs & L & C). rewrite L, C in H. discriminate.
+      * revert c' Hin. apply IH. destruct (all_lookup reg c) as [ls|]; [|exact H].
+        destruct (choose_blocks ad ls) as [[|f fs]|]; [exact H | discriminate | exact H].
+    + intros H. assert (Hc := H c (or_introl eq_refl)).
+      assert (Hr : scan_combinations reg ad cs = None) by (apply IH; intros c' Hin; apply H; right; exact Hin).
+      destruct (all_lookup reg c) as [ls|] eqn:L; [|exact Hr].
+      destruct (choose_blocks ad ls) as [[|f fs]|] eqn:C; [exact Hr | | exact Hr].
+      assert (U : usable reg c = true) by (apply (usable_iff reg ad); exists ls, f, fs; split; assumption).
+      congruence.
+Qed.
+
+(* C10: without an exact registration the product uses the FIRST combination, in the
+   enumerated order (largest first block first), all of whose blocks are registered *)
+Theorem get_metric_first axis_dims reg ad axes e :
+  find_key axes reg = None ->
+  get_metric axis_dims reg ad axes = Ok e ->
+  exists pre c post ls,
+    axis_combinations axes = pre ++ c :: post /\
+    (forall c', In c' pre -> usable reg c' = false) /\ usable reg c = true /\
+    all_lookup reg c = Some ls /\ choose_blocks ad ls = Some e.
+Proof.
+  intros Hk H. unfold get_metric in H.
+  destruct (forM_ _ (dedup_s axes)) as [[]|]; [|discriminate]. cbn [bind] in H. rewrite Hk in H.
+  destruct (scan_combinations reg ad (axis_combinations axes)) as [e'|] eqn:S; [|discriminate].
+  inversion H; subst. apply scan_combinations_first. exact S.
+Qed.
+
+(* ... and when no combination is usable the request is refused: no metric is made up *)
+Theorem get_metric_none_usable axis_dims reg ad axes :
+  find_key axes reg = None ->
+  (forall c, In c (axis_combinations axes) -> usable reg c = false) ->
+  exists err, get_metric axis_dims reg ad axes = Err err.
+Proof.
+  intros Hk Hu. unfold get_metric.
+  destruct (forM_ _ (dedup_s axes)) as [[]|err]; [|exists err; reflexivity]. cbn [bind]. rewrite Hk.
+  apply (scan_combinations_none reg ad) in Hu. rewrite Hu. exists KeyError. reflexivity.
+Qed.
